@@ -71,7 +71,9 @@ def run_grid(g):
     try:
         cls = CuboidPeriodicCells if g["periodic"] else CuboidCells
         try:
-            cells = cls(cells_per_side=ns, neighbor_layers=g["layers"])
+            # "cps" = the cells_per_side argument as given (may be shorter than the dimension: the first entry is
+            # reused for the remaining directions); "ns" = the harness's expectation of the padded counts
+            cells = cls(cells_per_side=list(g.get("cps", ns)), neighbor_layers=g["layers"])
         except Exception as e:  # noqa
             out["exc"] = exc_enum(e)
             return out
@@ -80,6 +82,7 @@ def run_grid(g):
         out["cells"] = [[list(c.identifier), [f2b(v) for v in c.cell_min], [f2b(v) for v in c.cell_max]]
                         for c in cell_list]
         out["sides"] = [f2b(v) for v in cells._cell_side_lengths]
+        out["cells_per_side"] = [int(v) for v in cells._cells_per_side]
         if g.get("positions") is not None:
             vecs = [[b2f(b) for b in v] for v in g["positions"]]
         else:
